@@ -87,6 +87,11 @@ def run(v):
                     "c09_mc_oic", workers=4, timeout=900, coverage=False)
     if ro.violated != "LastWordUnlessOverlapped":
         raise common.ToolError("MC_LspServer: the rebuild-only-if-changed deviation is not refuted (vacuous invariant)")
+    # a seeded deviation: of several content changes in one notification the first is taken
+    rb = common.tlc(os.path.join(SPEC, "mc", "MC_LspServer.tla"), os.path.join(SPEC, "mc", "MC_LspServer_dev_firstofbatch.cfg"),
+                    "c09_mc_fob", workers=4, timeout=900, coverage=False)
+    if rb.violated != "LastWordUnlessOverlapped":
+        raise common.ToolError("MC_LspServer: the first-of-batch deviation is not refuted (vacuous invariant)")
     # liveness: the server always comes to rest (weak fairness of handler steps, no state constraint)
     rl = common.tlc(os.path.join(SPEC, "mc", "MC_LspServer.tla"), os.path.join(SPEC, "mc", "MC_LspServer_live.cfg"),
                     "c09_mc_live", workers=8, timeout=1800, coverage=False)
